@@ -133,25 +133,43 @@ def peel_ids(known_entry, rep):
     run can still be judged."""
     if known_entry["matcher"] in ("three_digit_ring_number_in_output", "string_decode_raises_recursion_error"):
         return {rep["ops"][-1]["id"]}          # the alpha_decode op that generated the string
-    return {op["id"] for op in rep["ops"] if op["op"] == "mutate"}
+    by_id = {op["id"]: op for op in rep["ops"]}
+    return {op["id"] for op in rep["ops"] if op["op"] == "mutate"
+            and by_id.get(op["h"], {}).get("op") in ("get_alphabet", "observe", "alpha_decode")}
 
 
 def _needs_alphabet_mutation(rep):
     """The 1-minimal history contains a caller-side mutation of a set obtained
     from get_semantic_robust_alphabet (so the mutation is necessary for the
-    violation), and no configuration update that failed."""
+    violation), no configuration update that failed, and no other caller-side
+    mutation except of a dict the caller then passes to set_semantic_constraints
+    itself (building an argument is not a fault).  If all the alphabet mutations
+    are additions, the symbols the read has too many must be among the added ones."""
     ops = rep.get("ops", [])
     by_id = {op["id"]: op for op in ops}
-    hit = False
+    passed_on = {op["h"] for op in ops if op["op"] == "set_from"}
+    hit, added, only_adds = False, set(), True
     res = rep.get("results", [])
     for pos, op in enumerate(ops):
         if op["op"] == "mutate":
             src = by_id.get(op["h"])
-            if src is None or src["op"] not in ("get_alphabet", "observe", "alpha_decode"):
+            if src is not None and src["op"] in ("get_alphabet", "observe", "alpha_decode") and not op.get("ret"):
+                hit = True
+                if op["how"] == "add" and isinstance(op.get("arg"), str):
+                    added.add(op["arg"])
+                else:
+                    only_adds = False
+            elif src is not None and src["op"] in ("get", "get_preset") and op["h"] in passed_on and not op.get("ret"):
+                continue          # the caller edits its own copy of a table and installs it
+            else:
                 return False
-            hit = True
-        elif op["op"] in ("set_table", "set_preset") and res[pos].startswith("('err'"):
+        elif op["op"] in ("set_table", "set_preset", "set_from") and res[pos].startswith("('err'"):
             return False      # a *failed* update is part of it: that is another story
+    if hit and only_adds:
+        d = rep.get("violation", {}).get("detail", {})
+        if "got_minus_want" in d and not ({repr(x) for x in d["got_minus_want"]} <= {repr(x) for x in added}
+                                          and not d.get("want_minus_got")):
+            return False
     return hit
 
 
